@@ -52,7 +52,7 @@ def run(tier, seed, args):
             npages = len(img) // 1024
             for k in sorted({1, npages // 3, npages // 2, npages // 2 + 3, (2 * npages) // 3, npages - 3}):
                 b = bytearray(img); b[k * 1024 + 300] ^= 0x40
-                ps.append({"name": mp[0]["name"] + f"_damaged_page{k}", "image_bytes": list(b), "steps": mp[0]["steps"], "opts": [[True, True, False, True, True, True], [False] * 6]})
+                ps.append({"name": mp[0]["name"] + f"_damaged_page{k}", "image_bytes": list(b), "steps": mp[0]["steps"], "opts": [[True, True, False, True, True, True], [False] * 6], "damaged": True})
     n, npts = run_simple(v, wd, exe, ps, "c05", ("C05",))
     log(f"[C05] {len(ps)} files, {n} iterations (option vectors x point clouds), {npts} points compared with the documented view")
     v.add(states=v.cov.get("trace_events", 0), transitions=v.cov.get("trace_events", 0), exhaustive=False,
